@@ -104,6 +104,15 @@ def cpython_sig(toks, src):
             out.append((n, '', l1 if n == 'INDENT' else None))
         else:
             out.append((n, s, (l1, c1)))
+    # An INDENT of the reference belongs to the logical line whose first token follows it.  Normally that is the INDENT's own line;
+    # when the indented physical line holds nothing but a backslash continuation and is followed by a blank line (' \\\n\n def ...'),
+    # the reference puts the INDENT on that empty logical line - the same artefact as the NEWLINE / INDENT-DEDENT cases above.
+    for i, t in enumerate(out):
+        if t[0] == 'INDENT':
+            for u in out[i + 1:]:
+                if isinstance(u[2], tuple):
+                    out[i] = ('INDENT', '', u[2][0])
+                    break
     return out, layout
 
 
